@@ -38,7 +38,11 @@ pub fn check(rep: &mut CaseReport, events: &[Event], view: &WireView, p: &Params
         Some(c) => c,
         None => return,
     };
-    let my_pkts: Vec<usize> = conn.dir(p.real_is_initiator).iter().copied().filter(|pi| !view.pkts[*pi].scripted).collect();
+    let blocked = crate::mon::diag::blocked_intervals(events, p.real_addr);
+    if !blocked.is_empty() {
+        rep.counters.add("c17_transport_blockages_seen", blocked.len() as u64);
+    }
+    let my_pkts: Vec<usize> = conn.dir(p.real_is_initiator).iter().copied().filter(|pi| !view.pkts[*pi].scripted && view.pkts[*pi].left_sender()).collect();
     // (a) SYN-ACK
     if !p.real_is_initiator {
         if let Some(&pi) = my_pkts.first() {
@@ -128,6 +132,7 @@ pub fn check(rep: &mut CaseReport, events: &[Event], view: &WireView, p: &Params
     let mut my_fin_retx: Vec<Us> = Vec::new();
     let mut my_fin_acked_at: Option<Us> = None;
     let mut data_acked_idx: i64 = -1;
+    let mut data_acked_at_fin: i64 = -1;
     let mut dead_at: Option<(usize, Us, Option<String>)> = None;
     let mut reset_at: Option<(usize, Us, bool)> = None; // (idx, t, handshake answered)
     let mut any_timeout_before_fin = false;
@@ -229,6 +234,11 @@ pub fn check(rep: &mut CaseReport, events: &[Event], view: &WireView, p: &Params
                 if pk.ty == wire::ST_SYN {
                     continue;
                 }
+                // a datagram the transport refused never left
+                if !wp.left_sender() {
+                    rep.counters.inc("c17_emission_attempts_refused_by_the_transport");
+                    continue;
+                }
                 rep.counters.inc("c17_emitted_packets_checked");
                 // (d) nothing after a processed RESET
                 if let Some((ri, rt, _)) = reset_at {
@@ -300,6 +310,8 @@ pub fn check(rep: &mut CaseReport, events: &[Event], view: &WireView, p: &Params
                                 let on_death = matches!(dead_at, Some((_, dt, Some(_))) if dt == e.t);
                                 let own = peer_fin_accepted.is_none() && !on_death;
                                 my_fin = Some((i, e.t, fidx, own));
+                                // what was acknowledged at that moment (not at the end of the run)
+                                data_acked_at_fin = data_acked_idx;
                                 if own {
                                     rep.counters.inc("c17_own_fins_checked");
                                     if fidx != max_data_idx + 1 {
@@ -340,7 +352,8 @@ pub fn check(rep: &mut CaseReport, events: &[Event], view: &WireView, p: &Params
         if alive && nothing_unsent && reset_at.map(|(ri, _, _)| ri > fi).unwrap_or(true) {
             rep.counters.inc("c17_fin_answers_checked");
             match my_fin {
-                Some((_, t, _, _)) if t <= ft + MS => {}
+                // (with the transport blocked at that moment: as soon as it takes datagrams again)
+                Some((_, t, _, _)) if t <= crate::mon::diag::unblocked_at(&blocked, ft) + MS => {}
                 Some((mi, _, _, _)) if mi < fi => {} // already closing
                 other => rep.violate(
                     P,
@@ -354,9 +367,11 @@ pub fn check(rep: &mut CaseReport, events: &[Event], view: &WireView, p: &Params
     }
     // (b3) FIN retransmission while unacknowledged
     if let Some((_, ft, fidx, own)) = my_fin {
-        let all_data_acked_at_fin = data_acked_idx >= fidx - 1 || max_data_idx < 0;
+        let all_data_acked_at_fin = data_acked_at_fin >= fidx - 1 || max_data_idx < 0;
         let rto_upper = (300 * MS).max(5 * max_rtt_sample) + 20 * MS;
-        let window_end = ft + rto_upper;
+        // time the transport spent refusing datagrams does not count
+        let blocked_time: Us = blocked.iter().filter(|(s0, _)| *s0 >= ft && *s0 <= ft + rto_upper + 2_000_000).map(|(s0, u)| u - s0).sum();
+        let window_end = ft + rto_upper + blocked_time;
         let acked_in_time = my_fin_acked_at.map(|t| t <= window_end).unwrap_or(false);
         let died_in_time = dead_at.as_ref().map(|(_, t, _)| *t <= window_end).unwrap_or(false);
         let reset_in_time = reset_at.map(|(_, t, _)| t <= window_end).unwrap_or(false);
